@@ -37,6 +37,7 @@ def check_property(prop, tier="quick", seed=0, jobs=16):
     lemmas_used = []
     dependent_notes = []
     vac = dict(reach_probes_failed_as_expected=0, covers_satisfied=0, covers_total=0)
+    bounded_checks = bounded_passed = 0
     checker_cmds = []
 
     # ---------------- Verus: lemma files and extracted units
@@ -175,6 +176,9 @@ def check_property(prop, tier="quick", seed=0, jobs=16):
             undecided.append(f"kani {k['harness']}: " + "; ".join(f["desc"] for f in und))
         if not is_bounded:
             discharged += n_checks - len(viol) - len(und) - r["undetermined"]
+        else:
+            bounded_checks += n_checks
+            bounded_passed += n_checks - len(viol) - len(und) - r["undetermined"]
         if len(samples) < 10 and k.get("text"):
             samples.append(f"{k['harness']}: {k['text']}")
         for fc in viol:
@@ -266,8 +270,10 @@ def check_property(prop, tier="quick", seed=0, jobs=16):
             explanation=meta.get("explanation", ""),
             repo=repo_head(),
             # generic fallback keys (measured): evaluations = obligations generated, distinct = discharged
-            evaluations=max(obligations, 1), distinct_nontrivial=max(discharged, 0),
-            rule="one case = one proof obligation generated from today's source (a Verus function or a CBMC check); non-trivial = discharged and not an expected-fail vacuity probe",
+            evaluations=max(obligations + bounded_checks, 1), distinct_nontrivial=max(discharged + bounded_passed, 0),
+            bounded_checks=bounded_checks, bounded_checks_passed=bounded_passed,
+            rule="one case = one proof obligation generated from today's source (a Verus function or a CBMC check, each at a distinct source location / contract clause); "
+                 "non-trivial = discharged and not an expected-fail vacuity probe; checks of bounded stand-ins are counted here but never under obligations/discharged",
         ),
         assumptions=assumptions,
     )
